@@ -1,0 +1,20 @@
+//go:build verif
+
+// Contracts for GoVC (comments only; see /verif/DESIGN.md).
+
+package opts
+
+// envOf / puOK / puVal: the process environment and strconv.ParseUint(s, 0, 64) as
+// uninterpreted observers (what "a valid value" means is fixed by this contract).
+//@ spec uf func envOf(key string) string
+//@ spec uf func puOK(s string) bool
+//@ spec uf func puVal(s string) Int
+
+//@ func parseOrDefault(key string, def int, min int) (r int)
+//@   modifies nothing
+//@   panics when len(envOf(key)) != 0 && (!puOK(envOf(key)) || int(puVal(envOf(key))) <= min)
+//@   ensures c17_default: len(envOf(key)) == 0 ==> r == def
+//@   ensures c17_value: len(envOf(key)) != 0 ==> puOK(envOf(key)) && r == int(puVal(envOf(key))) && r > min
+
+//@ func GetDefaultOptions() (o Options)
+//@   modifies nothing
